@@ -460,7 +460,7 @@ class StoreWorld(WorldBase):
         h = self._pick_bus(ch, buses)
         fmt = ch.choice(['zip_pickle', 'zip_pickle', self.config['fmt']])
         return {'op': 'export', 'h': h, 'fmt': fmt, 'fid': max(self.files) + 1, 'out': self.next_h,
-                'mp': ch.choice([None, 1, 2])}
+                'mp': ch.choice([None, 1, 2]), 'cform': ch.choice(['map', 'map', 'default', 'bare', 'default_noindex'])}
 
     def gen_reopen(self, ch, buses, its):
         fid = ch.choice(sorted(self.files))
@@ -1105,6 +1105,22 @@ class StoreWorld(WorldBase):
             cfg = self._store_config(specs, True, fmt)
             if any((not s['cols']) or (not s['index']) for s in specs):
                 return 'skip'
+            cform = op.get('cform', 'map')
+            if cform != 'map' and all(s['idepth'] == 1 and s['cdepth'] == 1 for s in specs):
+                # other legitimate forms of the same configuration: a bare StoreConfig, a map that only has a default,
+                # and one that differs from the Bus's own configuration in what is written (no index column)
+                if cform == 'bare':
+                    cfg = sf.StoreConfig(index_depth=1, columns_depth=1)
+                elif cform == 'default':
+                    cfg = sf.StoreConfigMap(default=sf.StoreConfig(index_depth=1, columns_depth=1))
+                elif any(len(s['cols']) < 2 for s in specs):
+                    # a delimited file with a single column and no index column is outside what from_delimited
+                    # parses in this environment (format envelope, C16 territory; DESIGN 9)
+                    cform = 'map'
+                else:
+                    cfg = sf.StoreConfigMap(default=sf.StoreConfig(include_index=False, index_depth=0, columns_depth=1))
+                    specs = [dict(s, index=list(range(len(s['index'])))) for s in specs]
+                self.stats['export-config:' + cform] += 1
             if fmt == 'sqlite' and any(s['cdepth'] == 1 and any(not isinstance(c, str) for c in s['columns']) for s in specs):
                 return 'skip'
         else:
